@@ -77,11 +77,14 @@ CHECKS = {
               "chunk is delivered whole and at once), C05_handover_ipv4 / C05_wait / C05_failure_reply (the application is created exactly when the "
               "buffered bytes are a complete success reply, then gets all following bytes in the same step; nothing observable before), C05_once, "
               "C05_errors (reply code -> class over the generated error table, code preserved). The automat transition table is regenerated from the "
-              "source and interpreted. The run-level law observe(run chunks) = specObs(total stream) is checked by the correspondence run on several "
-              "segmentations (whole, byte-wise, all two-cut splits of short streams, random) of every generated stream, with disconnects injected."),
-        note=NOTE_COMMON + "Partial in one respect: the equality between a whole run and the stream-level spec (specObs) is validated differentially, "
-             "not proved as one theorem; the per-step theorems and the settled invariant are proved. Known finding: CONNECT answered with a domain-type address.",
-        technique="Lean 4: state invariant + per-step theorems over a model interpreting the generated automat table; differential correspondence incl. stream-level spec",
+              "source and interpreted. C05_stream_law (Props/C05b): for EVERY segmentation of the server's bytes into reads (any number, any sizes, empty ones "
+              "included) the observation of the run — writes, hand-over, bytes delivered, outcome, transport closed — equals specObs of the concatenation; "
+              "proved through feed_canon (the machine after t is a closed form canon t; feeding c gives canon (t ++ c) and the outputs turn specObs t into "
+              "specObs (t ++ c)) and parseReply_stable (a complete reply is not re-read by later bytes); C05_segmentation as corollary. The correspondence run "
+              "checks the same law on whole, byte-wise, two-cut and random segmentations of every generated stream, with disconnects injected."),
+        note=NOTE_COMMON + "The stream law is proved for connections that stay up and for CONNECTs not answered with a domain-type address "
+             "(that case is the known finding; its kernel-checked witness is in Props/C05b); streams ending in a disconnect are compared differentially.",
+        technique="Lean 4: closed-form state + run-level refinement to a stream-level spec for every segmentation, over a model interpreting the generated automat table; differential correspondence",
         ref='§4 C05'),
     'C06': dict(
         text=("C06_connect_host / C06_connect_v4 / C06_resolve / C06_ptr_v4 / C06_ptr_v6: for every host name of up to 255 ASCII bytes, every IPv4/IPv6 "
